@@ -198,10 +198,21 @@ def lean_stage(ctx, extra_targets=()):
 
 def run_driver(driver_rel, lines, cwd=None):
   """pipe lines through `lake env lean --run <driver>`; returns list of output lines"""
+  # the driver's own imports must be built (they need not be imported by any Props file)
+  drv_src = open(os.path.join(LEAN, driver_rel)).read()
+  mods = re.findall(r'^import\s+(Brax[\w.]*)', drv_src, re.M)
+  if mods:
+    ok, log = lake_build(mods, os.path.join(WORK, f'drv-{os.getpid()}.log'))
+    try:
+      os.remove(os.path.join(WORK, f'drv-{os.getpid()}.log'))
+    except OSError:
+      pass
+    if not ok:
+      raise RuntimeError(f'lean driver imports do not build: {log[-2000:]}')
   p = subprocess.run(['lake', 'env', 'lean', '--run', driver_rel], cwd=LEAN,
                      input='\n'.join(lines) + '\n', capture_output=True, text=True)
   if p.returncode != 0:
-    raise RuntimeError(f'lean driver failed: {p.stderr[-2000:]}')
+    raise RuntimeError(f'lean driver failed: {p.stderr[-2000:]} {p.stdout[-1000:]}')
   out = p.stdout.split('\n')
   if out and out[-1] == '':
     out.pop()
